@@ -7,6 +7,7 @@ for p in "$1"/*.patch; do
   git mailinfo /var/tmp/afs.msg /var/tmp/afs.patch < "$p" > /var/tmp/afs.info
   subj=$(sed -n 's/^Subject: //p' /var/tmp/afs.info)
   git apply --index --exclude='tests/*' --exclude='property_tests/*' "$p"
+  if git diff --cached --quiet; then echo "skipped (tests only): $subj"; continue; fi
   { echo "$subj"; echo; cat /var/tmp/afs.msg; } > /var/tmp/afs.full
   git commit -q -F /var/tmp/afs.full
   echo "committed: $(git log --oneline -1)"
